@@ -7,6 +7,12 @@
 //!   adv <fld> <hasher> <N> <remdeg> <logb> <logT> <nq> <fkind> <fparam> <strategy> <sparam> <seed>
 //!       adversaries against the real prover/verifier with the default channels, Merkle trees and coin
 //!       (not modelled: α's and query positions depend on the hash function).
+//!   prt <fld> <hasher> <N> <remdeg> <logb> <logT> <nq> <fkind> <strategy> <pexp> <cshift> <seed>
+//!       the partition-count dimension and the error kinds of MerkleTree::verify_batch, end to end with the default
+//!       channel (its provided `read_layer_queries`), real Merkle trees and coin: the proof's num_partitions byte is
+//!       `pexp` (2^pexp partitions), the channel is built for a domain of size/2^cshift (wrong tree depth), and the
+//!       values are honest, forged so that they fold onto the committed remainder (real or junk layer commitments),
+//!       substituted openings, more than 255 folded positions, or no position at all (not modelled: oracle only).
 //! Oracle: a function that is not of low degree (random, degree bound+1..domain-1, heavily corrupted) must be
 //! rejected whatever the strategy; the remainder must be the one committed to before the queries were drawn; for
 //! honest folding the verdict is predicted exactly in the coefficient domain.
@@ -480,7 +486,9 @@ fn gen_vfy(rng: &mut Rng, tier: Tier, count: usize, emit: &mut dyn FnMut(String)
             },
             20 => {
                 let mut s = honest.clone();
-                s.parts = *rng.pick(&[2usize, 4]);
+                // the partition count is untrusted proof data: small, around the folded domain size, huge
+                let target = (size / n).max(1);
+                s.parts = *rng.pick(&[2usize, 4, (target / 2).max(1), target, 2 * target, 1 << 16, 1 << 40, 1 << 63]);
                 emit(s.line(&of, "parts"));
             },
             21 => {
@@ -1172,18 +1180,411 @@ fn gen_sched_adv(rng: &mut Rng, tier: Tier, emit: &mut dyn FnMut(String)) {
     }
 }
 
+// ------------------------------------------------------------------------------------ prt (partition count, verify_batch errors)
+fn drp_n<B: Fld, E: El<B>, const N: usize>(evals: &[E], alpha: E) -> Vec<E> {
+    let t = transpose_slice::<E, N>(evals);
+    apply_drp::<B, E, N>(&t, B::GENERATOR, alpha)
+}
+
+fn drp_any<B: Fld, E: El<B>>(evals: &[E], alpha: E, n: usize) -> Vec<E> {
+    match n {
+        2 => drp_n::<B, E, 2>(evals, alpha),
+        4 => drp_n::<B, E, 4>(evals, alpha),
+        8 => drp_n::<B, E, 8>(evals, alpha),
+        _ => drp_n::<B, E, 16>(evals, alpha),
+    }
+}
+
+/// Reference of the Merkle leaf the verifier's layout assigns to folded position `p` of a layer with `target`
+/// rows when the proof claims 2^pexp partitions: partition `p mod P` holds `target / P` consecutive leaves and
+/// `p` is its element number `p div P` (wide arithmetic: P is untrusted and can be 2^63).
+fn ref_layout_index(p: usize, target: usize, pexp: u32) -> u128 {
+    if pexp == 0 {
+        return p as u128;
+    }
+    let parts = 1u128 << pexp;
+    let per_part = target as u128 / parts;
+    (p as u128 % parts) * per_part + p as u128 / parts
+}
+
+struct Prt<'a> {
+    n: usize,
+    r: usize,
+    logb: u32,
+    logt: u32,
+    nq: usize,
+    fkind: &'a str,
+    strategy: &'a str,
+    pexp: u32,
+    cshift: u32,
+    seed: u64,
+}
+
+fn rows_to_bytes<E: FieldElement>(rows: &[Vec<E>]) -> Vec<u8> {
+    let mut b = vec![];
+    for r in rows {
+        for x in r {
+            x.write_into(&mut b);
+        }
+    }
+    b
+}
+
+impl<'a> Job for Prt<'a> {
+    fn run<B: Fld, E: El<B>, H: ElementHasher<BaseField = B> + 'static>(&self, of: OF) -> Outcome {
+        let folding = self.n;
+        let t = 1usize << self.logt;
+        let blowup = 1usize << self.logb;
+        let n = t * blowup;
+        if self.nq >= n || (n >> self.cshift) < 2 {
+            return Outcome::ok("bad-op");
+        }
+        let options = FriOptions::new(blowup, folding, self.r);
+        let mut rng = Rng::new(self.seed);
+        let num_layers = ref_num_layers(blowup, folding, self.r, n);
+        let max_degree = t - 1;
+        let mut last_dom = n;
+        for _ in 0..num_layers {
+            last_dom /= folding;
+        }
+        let tl = last_dom / blowup;
+        if tl == 0 {
+            return Outcome::ok("bad-op");
+        }
+
+        // ---- the function
+        let (f, far): (Vec<E>, bool) = match self.fkind {
+            "rand" => ((0..n).map(|_| rand_e::<B, E>(&of, &mut rng)).collect(), true),
+            "deg" => {
+                // degree exactly bound + 1
+                let mut c: Vec<E> = (0..t + 1).map(|_| rand_e::<B, E>(&of, &mut rng)).collect();
+                c[t] = E::ONE;
+                (eval_full::<B, E>(&c, n), true)
+            },
+            _ => {
+                let c: Vec<E> = (0..t).map(|_| rand_e::<B, E>(&of, &mut rng)).collect();
+                (eval_full::<B, E>(&c, n), false)
+            },
+        };
+
+        // ---- commit phase: the real prover, or junk layer roots and a committed remainder of admissible size
+        let junk = matches!(self.strategy, "forgej" | "manyj" | "noposj");
+        let forging = matches!(self.strategy, "forge" | "forgej" | "manyj" | "noposj");
+        let mut prover = FriProver::<B, E, AdvChannel<E, H>, H>::new(options.clone());
+        let mut remainder: Vec<E> = vec![];
+        let commitments: Vec<H::Digest> = if junk {
+            let mut cs: Vec<H::Digest> = (0..num_layers)
+                .map(|i| H::hash_elements(&[E::from(0xBAD0u32 + i as u32), rand_e::<B, E>(&of, &mut rng)]))
+                .collect();
+            remainder = (0..tl).map(|_| rand_e::<B, E>(&of, &mut rng)).collect();
+            cs.push(H::hash_elements(&remainder));
+            cs
+        } else {
+            let mut ch = AdvChannel::<E, H>::new(None, None);
+            prover.build_layers(&mut ch, f.clone());
+            ch.commitments.clone()
+        };
+
+        // ---- the verifier's challenges and query positions (Fiat-Shamir)
+        let mut coin = DefaultRandomCoin::<H>::new(&[]);
+        let mut alphas: Vec<E> = vec![];
+        for c in &commitments {
+            coin.reseed(*c);
+            alphas.push(coin.draw().expect("alpha"));
+        }
+        let positions: Vec<usize> = if self.nq == 0 { vec![] } else { coin.draw_integers(self.nq, n, 0).expect("positions") };
+
+        // ---- the layers of the function under these challenges, the folded positions, the rows to open
+        let mut evs: Vec<Vec<E>> = vec![f.clone()];
+        for d in 0..num_layers {
+            let next = drp_any::<B, E>(&evs[d], alphas[d], folding);
+            evs.push(next);
+        }
+        let mut fps: Vec<Vec<usize>> = vec![];
+        {
+            let mut prev = positions.clone();
+            let mut dom = n;
+            for _ in 0..num_layers {
+                let m = dom / folding;
+                let fp = ref_fold_positions(&prev, m);
+                fps.push(fp.clone());
+                prev = fp;
+                dom = m;
+            }
+        }
+        let row_at = |d: usize, j: usize| -> Vec<E> {
+            let m = evs[d].len() / folding;
+            (0..folding).map(|k| evs[d][j + k * m]).collect()
+        };
+        let mut rows: Vec<Vec<Vec<E>>> = (0..num_layers).map(|d| fps[d].iter().map(|&j| row_at(d, j)).collect()).collect();
+        let committed_rows = rows.clone();
+        let mut o_self: Option<String> = None;
+
+        let mut raw: RawProof = if junk {
+            RawProof {
+                layers: rows.iter().map(|r| (rows_to_bytes(r), vec![0u8])).collect(),
+                remainder: elements_to_bytes(&remainder),
+                parts: 0,
+            }
+        } else {
+            let proof = prover.build_proof(&positions);
+            let raw = split_proof(&proof.to_bytes()).expect("own proof splits");
+            remainder = read_els::<E>(&raw.remainder);
+            for d in 0..num_layers {
+                if raw.layers[d].0 != rows_to_bytes(&rows[d]) {
+                    o_self = Some(format!("layer {}: the prover's opened rows differ from the harness's folding of the function", d));
+                }
+            }
+            raw
+        };
+
+        // ---- value forging
+        let mut na = false;
+        if forging && num_layers > 0 {
+            // one entry per last-layer row that the previous layer cannot cross-check is solved so that the row folds
+            // onto the committed remainder
+            let last = num_layers - 1;
+            let pp = if last == 0 { positions.clone() } else { fps[last - 1].clone() };
+            let dsize = evs[last].len();
+            let m = dsize / folding;
+            let g1 = B::get_root_of_unity(dsize.ilog2());
+            let g2 = if m > 1 { B::get_root_of_unity(m.ilog2()) } else { B::ONE };
+            let w = B::get_root_of_unity(folding.ilog2());
+            let offset = B::GENERATOR;
+            for (ri, &k) in fps[last].iter().enumerate() {
+                let Some(free) = (0..folding).find(|&i| !pp.contains(&(k + i * m))) else {
+                    // every entry of the row is cross-checked; with hundreds of queries (more than 255 folded
+                    // positions) such rows are left as they are, otherwise the strategy does not apply
+                    if self.nq > 255 {
+                        continue;
+                    }
+                    na = true;
+                    break;
+                };
+                let xs: Vec<E> =
+                    (0..folding).map(|i| E::from(g1.exp((k as u64).into()) * offset * w.exp((i as u64).into()))).collect();
+                let target = polynom::eval(&remainder, E::from(offset * g2.exp((k as u64).into())));
+                let mut row = rows[last][ri].clone();
+                row[free] = E::ZERO;
+                let mut unit = vec![E::ZERO; folding];
+                unit[free] = E::ONE;
+                let p0 = polynom::eval(&polynom::interpolate(&xs, &row, false), alphas[last]);
+                let p1 = polynom::eval(&polynom::interpolate(&xs, &unit, false), alphas[last]);
+                if p1 == E::ZERO {
+                    na = true;
+                    break;
+                }
+                row[free] = (target - p0) / p1;
+                rows[last][ri] = row;
+            }
+            raw.layers[last].0 = rows_to_bytes(&rows[last]);
+        }
+        if self.strategy == "subst" && num_layers > 0 {
+            // the opening of one layer is replaced by a valid opening of the same tree at other positions
+            let mut prover2 = FriProver::<B, E, AdvChannel<E, H>, H>::new(options.clone());
+            let mut ch2 = AdvChannel::<E, H>::new(None, None);
+            prover2.build_layers(&mut ch2, f.clone());
+            let shifted: Vec<usize> = positions.iter().map(|p| (p + 1) % n).collect();
+            let raw2 = split_proof(&prover2.build_proof(&shifted).to_bytes()).expect("own proof splits");
+            let d = (self.seed as usize) % num_layers;
+            raw.layers[d] = raw2.layers[d].clone();
+            let mut shifted_fp = shifted.clone();
+            let mut dom = n;
+            for _ in 0..=d {
+                dom /= folding;
+                shifted_fp = ref_fold_positions(&shifted_fp, dom);
+            }
+            rows[d] = shifted_fp.iter().map(|&j| row_at(d, j)).collect();
+        }
+        if self.strategy == "manyj" {
+            for d in 0..num_layers {
+                rows[d].truncate(255);
+                raw.layers[d].0 = rows_to_bytes(&rows[d]);
+            }
+        }
+        if self.strategy == "noposj" {
+            // no position is queried; a layer must still carry one row to parse
+            for d in 0..num_layers {
+                rows[d] = vec![row_at(d, 0)];
+                raw.layers[d].0 = rows_to_bytes(&rows[d]);
+            }
+        }
+        if na {
+            return Outcome::ok("na");
+        }
+        // are the values sent the committed values at the folded positions?
+        let sent_committed = !junk && rows == committed_rows;
+
+        // ---- the verifier: default channel (its provided read_layer_queries), real Merkle verification
+        raw.parts = self.pexp as u8;
+        let qevals: Vec<E> = positions.iter().map(|p| f[*p]).collect();
+        let verdict = match FriProof::read_from_bytes(&join_proof(&raw)) {
+            Ok(p) => match winter_fri::DefaultVerifierChannel::<E, H>::new(p, commitments.clone(), n >> self.cshift, folding) {
+                Ok(mut ch) => {
+                    let mut coin = DefaultRandomCoin::<H>::new(&[]);
+                    match FriVerifier::new(&mut ch, &mut coin, options.clone(), max_degree) {
+                        Ok(v) => verdict_str(&v.verify(&mut ch, &qevals, &positions)),
+                        Err(e) => verr_str(&e),
+                    }
+                },
+                Err(_) => "err:Deserialization".into(),
+            },
+            Err(_) => "err:Deserialization".into(),
+        };
+        let accepted = verdict == "ok";
+        let mut o = Outcome::ok(verdict.clone());
+        let site = |s: &str| format!("fri.prt.{}.{}", self.strategy, s);
+        if let Some(d) = o_self {
+            o = o.fail(site("selfcheck"), d);
+        }
+
+        // ---- oracle
+        // does the claimed layout send every folded position to the leaf it was committed at?
+        let mut layout_id = true;
+        {
+            let mut dom = n;
+            for d in 0..num_layers {
+                let target = dom / folding;
+                if fps[d].iter().any(|&p| ref_layout_index(p, target, self.pexp) != p as u128) {
+                    layout_id = false;
+                }
+                dom = target;
+            }
+        }
+        if far && accepted && (num_layers > 0 || !positions.is_empty()) {
+            o = o.fail(
+                site("accepted-far"),
+                format!("a function far from the degree bound was accepted (num_partitions = 2^{})", self.pexp),
+            );
+        }
+        if !sent_committed && accepted && num_layers > 0 {
+            o = o.fail(
+                site("accepted-uncommitted"),
+                format!(
+                    "accepted although layer values sent are not the values committed to at the queried positions (num_partitions = 2^{}, channel domain {})",
+                    self.pexp,
+                    n >> self.cshift
+                ),
+            );
+        }
+        if sent_committed && !far && self.cshift == 0 && accepted != layout_id {
+            o = o.fail(
+                site("layout-verdict"),
+                format!(
+                    "honest data, num_partitions = 2^{}: verdict {} but the claimed layout {} every queried position to the leaf it was committed at",
+                    self.pexp,
+                    verdict,
+                    if layout_id { "maps" } else { "does not map" }
+                ),
+            );
+        }
+        o
+    }
+}
+
+/// every base configuration × every partition count class × honest / forged / substituted values, plus the other
+/// error kinds of verify_batch (out-of-range index and wrong depth through the channel's domain, more than 255
+/// indexes, no index)
+fn gen_prt(rng: &mut Rng, tier: Tier, emit: &mut dyn FnMut(String)) {
+    let bases = if tier == Tier::Quick { 16 } else { 96 };
+    let maxlogn: u32 = if tier == Tier::Quick { 9 } else { 11 };
+    let mut k = 0usize;
+    while k < bases {
+        let fld = FIELDS[k % 4];
+        let hs = hashers_for(fld);
+        let hasher = hs[(k / 4) % hs.len()];
+        let n = [2usize, 4, 8, 16][(k / 4) % 4];
+        let r = *rng.pick(&[0usize, 1, 3, 7]);
+        let logb = rng.range(1, 3) as u32;
+        let logt = rng.range(2, (maxlogn - logb) as u64) as u32;
+        let t = 1usize << logt;
+        let size = t << logb;
+        let layers = ref_num_layers(1 << logb, n, r, size);
+        if size < 16 || layers == 0 || remainder_len(t, 1 << logb, n, r) == 0 {
+            continue;
+        }
+        k += 1;
+        // at least two distinct folded positions in a layer need a few queries
+        let nq = rng.range(3, 12.min(size as u64 - 1)) as usize;
+        let seed = rng.u64() >> 1;
+        let mut pexps: Vec<u32> = vec![0, 1, 2, 16, 40, 63];
+        let mut dom = size;
+        for _ in 0..layers {
+            dom /= n;
+            let l = dom.trailing_zeros();
+            pexps.extend_from_slice(&[l.saturating_sub(1), l, l + 1]);
+        }
+        pexps.sort();
+        pexps.dedup();
+        for &pexp in &pexps {
+            for (strategy, fkind) in [
+                ("honest", "low"),
+                ("honest", "rand"),
+                ("honest", "deg"),
+                ("forge", "rand"),
+                ("forge", "deg"),
+                ("forge", "low"),
+                ("forgej", "rand"),
+                ("forgej", "low"),
+                ("subst", "low"),
+            ] {
+                emit(format!(
+                    "prt {} {} {} {} {} {} {} {} {} {} 0 {}",
+                    fld, hasher, n, r, logb, logt, nq, fkind, strategy, pexp, seed
+                ));
+            }
+        }
+        // wrong Merkle depth / out-of-range indexes: the channel is built for a smaller domain
+        for cshift in [1u32, 2] {
+            for &pexp in &[0u32, 1, 40] {
+                for (strategy, fkind) in [("forge", "rand"), ("forgej", "rand"), ("forge", "low"), ("subst", "low")] {
+                    emit(format!(
+                        "prt {} {} {} {} {} {} {} {} {} {} {} {}",
+                        fld, hasher, n, r, logb, logt, nq, fkind, strategy, pexp, cshift, seed
+                    ));
+                }
+            }
+        }
+        // no position at all
+        for &pexp in &[0u32, 40] {
+            emit(format!("prt {} {} {} {} {} {} 0 rand noposj {} 0 {}", fld, hasher, n, r, logb, logt, pexp, seed));
+        }
+    }
+    // more than 255 folded positions in a layer (the honest prover cannot open that many): all rows, and 255 rows
+    for (i, fld) in FIELDS.iter().enumerate() {
+        for (n, logb, logt, nq) in [(2usize, 1u32, 9u32, 700usize), (4, 2, 9, 900), (2, 3, 7, 600)] {
+            for &pexp in &[0u32, 40] {
+                for strategy in ["forgej", "manyj"] {
+                    emit(format!(
+                        "prt {} b3 {} 7 {} {} {} rand {} {} 0 {}",
+                        fld,
+                        n,
+                        logb,
+                        logt,
+                        nq,
+                        strategy,
+                        pexp,
+                        rng.u64() >> 1
+                    ));
+                }
+            }
+        }
+    }
+}
+
 impl Prop for P {
     fn id(&self) -> &'static str {
         "C05"
     }
     fn gen(&self, rng: &mut Rng, tier: Tier, n: usize, emit: &mut dyn FnMut(String)) {
         let n = default_n(tier, 1400, 14_000, n);
-        let mut groups: Vec<Vec<String>> = vec![vec![], vec![], vec![], vec![], vec![]];
+        let mut groups: Vec<Vec<String>> = vec![vec![], vec![], vec![], vec![], vec![], vec![]];
         gen_combo_vfy(&mut rng.fork(), tier, &mut |l| groups[4].push(l));
         gen_sched_adv(&mut rng.fork(), tier, &mut |l| groups[3].push(l));
         gen_sched_vfy(&mut rng.fork(), tier, &mut |l| groups[2].push(l));
         gen_vfy(rng, tier, n, &mut |l| groups[0].push(l));
         gen_adv(rng, tier, n, &mut |l| groups[1].push(l));
+        gen_prt(&mut rng.fork(), tier, &mut |l| groups[5].push(l));
         emit_interleaved(groups, emit);
     }
     fn exec(&self, line: &str) -> Outcome {
@@ -1201,6 +1602,31 @@ impl Prop for P {
                     _ => Outcome::ok("bad-op"),
                 }
             },
+            ["prt", fld, hasher, n, r, logb, logt, nq, fkind, strategy, pexp, cshift, seed] => {
+                match (pu(n), pu(r), pu(logb), pu(logt), pu(nq), pu(pexp), pu(cshift), seed.parse::<u64>().ok()) {
+                    (Some(n), Some(r), Some(logb), Some(logt), Some(nq), Some(pexp), Some(cshift), Some(seed))
+                        if pexp < 256 && cshift < 8 && logb + logt <= 16 && [2, 4, 8, 16].contains(&n) =>
+                    {
+                        dispatch(
+                            fld,
+                            hasher,
+                            &Prt {
+                                n,
+                                r,
+                                logb: logb as u32,
+                                logt: logt as u32,
+                                nq,
+                                fkind,
+                                strategy,
+                                pexp: pexp as u32,
+                                cshift: cshift as u32,
+                                seed,
+                            },
+                        )
+                    },
+                    _ => Outcome::ok("bad-op"),
+                }
+            },
             _ => Outcome::ok("bad-op"),
         }
     }
@@ -1213,6 +1639,7 @@ impl Prop for P {
         match t[0] {
             "vfy" => format!("vfy.{}:{}", t[1], o),
             "adv" => format!("adv.{}.{}:{}", t[10], t[8], o),
+            "prt" if t.len() > 9 => format!("prt.{}.{}:{}", t[9], t[8], o),
             x => format!("{}:{}", x, o),
         }
     }
@@ -1236,7 +1663,11 @@ impl Prop for P {
          extra layers, one commitment fewer or more, other degree bounds, over-long remainder, fewer/more rows, length mismatch, \
          out-of-range position, partitions) over folding 2/4/8/16 × remainder degree 0..31 × blowup 2..8 × 4 fields; plus \
          end-to-end adversaries with the default channels, Merkle trees and coin over 4 fields × hashers × folding × remainder degree \
-         0..255 × blowup 2..16; a case is non-trivial when its op line is distinct"
+         0..255 × blowup 2..16; plus, with the default channel's own read_layer_queries, every base configuration × num_partitions \
+         2^0, 2^1, 2^2, half / equal / twice every folded domain size, 2^16, 2^40, 2^63 × (honest data of low-degree, random and \
+         bound+1 functions; last-layer values forged to fold onto the committed remainder under real and under junk layer \
+         commitments; substituted openings), channels built for a smaller domain (wrong Merkle depth, out-of-range indexes), more \
+         than 255 folded positions and no positions; a case is non-trivial when its op line is distinct"
     }
 }
 
